@@ -15,6 +15,8 @@ NAME_CHARS = 'abcdefghijklmnopqrstuvwxyzABCDEFGHIJKLMNOPQRSTUVWXYZ0123456789_:-.
 def rname(rng, maxlen=8, allow_space_tail=True):
     n = rng.choice([1, 1, 2, 3, 5, maxlen])
     s = ''.join(rng.choice(NAME_CHARS[:-1]) for _ in range(n))
+    # a control white-space at the end now and then (only the blank is trimmed by the name setters), possibly before blanks
+    if allow_space_tail and rng.random() < 0.04: s += rng.choice('\t\n\r\x0b\x0c')
     if allow_space_tail and rng.random() < 0.15: s += ' ' * rng.choice([1, 2])
     return s.encode()
 
